@@ -38,6 +38,13 @@ MaxStartsOf(s) == LET ids == DOMAIN rp[s] IN
                   CHOOSE m \in {rp[s][r].starts : r \in ids} : \A r \in ids : rp[s][r].starts <= m
 Known == e.s \in DOMAIN sess
 KnownRep == Known /\ e.rep \in DOMAIN rp[e.s]
+\* an upload whose body could not be read completely is tolerated iff a DELETE of the session had been issued
+\* before the receiver gave up reading it (look-ahead to the request's reqend line; only evaluated for such bodies)
+AbortedByDelete ==
+   /\ e.kind = "bad" /\ e.berr
+   /\ \E j \in l..Len(Trace) :
+         /\ Trace[j].ev = "reqend" /\ Trace[j].scn = e.scn /\ Trace[j].k = e.k
+         /\ \E i \in 1..j : Trace[i].ev = "call" /\ Trace[i].scn = e.scn /\ Trace[i].op = "delete" /\ Trace[i].s = e.s
 
 Hdr == /\ e.ev = "hdr"
        /\ sess' = NoSess /\ st' = NoSess /\ rp' = NoSess
@@ -55,7 +62,12 @@ Call == /\ e.ev = "call"
         /\ UNCHANGED <<sess, rp>>
 
 Ret == /\ e.ev = "ret"
-       /\ IF Known /\ e.op = "step" /\ ~st[e.s].delCalled
+       /\ IF Known /\ e.op = "step" /\ e.code # 200
+          THEN \* the step was refused: acceptable only when the session may legitimately have stopped
+               /\ Clause("C16.step.refused", MayStop(st[e.s].delCalled, st[e.s].initErr, NLoS(sess[e.s]), MaxStartsOf(e.s)),
+                         [code |-> e.code, variant |-> sess[e.s].variant, dur |-> sess[e.s].dur, sent |-> MaxStartsOf(e.s)])
+               /\ st' = st
+          ELSE IF Known /\ e.op = "step" /\ ~st[e.s].delCalled
           THEN \* C16.step: this step is served only after the previous steps' requests are complete
                /\ \A r \in DOMAIN rp[e.s] :
                      Clause("C16.step.order", StepLowerOK(st[e.s].servedLive + 1, rp[e.s][r].ends),
@@ -96,7 +108,7 @@ Req == /\ e.ev = "req"
                    T == st[e.s]
                    P == rp[e.s][e.rep]
                    idx == P.starts + 1
-                   aborted == e.kind = "bad" /\ e.berr /\ T.delCalled     \* upload cut by the DELETE: tolerated
+                   aborted == AbortedByDelete                               \* upload cut by the DELETE: tolerated
                    kinds2 == IF aborted THEN P.kinds ELSE Append(P.kinds, e.kind)
                IN
                /\ Clause("C16.headers", HeadersOK(S, R),
